@@ -375,7 +375,7 @@ class TreeTransformBase(TreeTransform):
         )
         for trans_id in self._removed_id:
             path = self.tree_path(trans_id)
-            if path is not None:
+            if path is not None and self._tree.is_versioned(path):
                 if self._tree.stored_kind(path) == "directory":
                     parents.append(trans_id)
             elif self.tree_kind(trans_id) == "directory":
@@ -1743,14 +1743,16 @@ class InventoryTreeTransform(DiskTreeTransform):
                 file_id = src_tree.path2id(src_path)
             if file_id is None:
                 # Source tree has nothing at that path (or doesn't use
-                # file ids). Fabricate from the final path — stable
+                # file ids). Fabricate from the final name — stable
                 # enough for this transform, and the only reasonable
-                # thing to do without a source of identity.
+                # thing to do without a source of identity.  (Only the
+                # name is used: the parents may still form a loop that
+                # resolve_conflicts has not broken yet.)
                 try:
-                    path = FinalPaths(self).get_path(trans_id)
+                    name = self.final_name(trans_id)
                 except NoFinalPath:
-                    path = self._new_name.get(trans_id, "")
-                file_id = generate_ids.gen_file_id(path or "")
+                    name = ""
+                file_id = generate_ids.gen_file_id(name or "")
         unique_add(self._new_id, trans_id, file_id)
         unique_add(self._r_new_id, file_id, trans_id)
 
@@ -2000,6 +2002,9 @@ class InventoryTreeTransform(DiskTreeTransform):
                     file_id = self._tree.path2id("")
                 else:
                     file_id = self.tree_file_id(trans_id)
+                # Never versioned in the tree: nothing to remove
+                if file_id is None:
+                    continue
                 # File-id isn't really being deleted, just moved
                 if file_id in self._r_new_id:
                     continue
